@@ -44,7 +44,7 @@ def run_variant(v, keep=False):
         for k in ("GOSUMDB", "GOTOOLCHAIN", "GOFLAGS", "GOWORK"):
             env.pop(k, None)
         env["GOPROXY"] = "off"
-        p = subprocess.run([BIN, "-p", v["property"], "-repo", tree, "-verif", out, "-tier", "quick"], capture_output=True, text=True, env=env)
+        p = subprocess.run([BIN, "-p", v["property"], "-repo", tree, "-verif", out, "-tier", "quick"], capture_output=True, text=True, env=env, timeout=600)
         txt = p.stdout + p.stderr
         if p.returncode == 2:
             return (v["id"], "error", txt.strip().splitlines()[-1] if txt.strip() else "exit 2")
